@@ -356,6 +356,14 @@ def reopen_workloads(tier, seed, prop):
     return [(seed * 1000 + 800 + i, [0x000, 0x800, 0x102, 0x904][i % 4], 26 if tier == 'quick' else 44, i % 2) for i in range(n)]
 
 
+def bigbatch_workloads(tier, seed, prop):
+    """Every third batch spans several 32 KiB log blocks (marker first, 120 KB of filler, data keys last)."""
+    if prop not in ('C04', 'C03'):
+        return []
+    n = 1 if tier == 'quick' else 4
+    return [(seed * 1000 + 900 + i, [0x000, 0x800, 0x102, 0x904][i % 4], 12 if tier == 'quick' else 24, i % 2) for i in range(n)]
+
+
 def workloads(tier, seed, prop):
     """(seed, optbits, nbatches, endmode). reuse_logs is bit 11; wb sizes bits 1-2; snappy bit 8."""
     base = [(0, 0x000), (1, 0x800), (2, 0x102), (3, 0x904)]
@@ -382,10 +390,11 @@ def run_disk(prop, tier, seed, extra=None):
     allw = [(w, False) for w in workloads(tier, seed, prop)] + [(w, True) for w in heavy_workloads(tier, seed, prop)]
     allw += [(w, 'race') for w in race_workloads(tier, seed, prop)]
     allw += [(w, 'reopen') for w in reopen_workloads(tier, seed, prop)]
+    allw += [(w, 'bigbatch') for w in bigbatch_workloads(tier, seed, prop)]
     for ((wseed, bits, nb, endmode), heavy) in allw:
         if out.full(): break
-        renv = {'CRASH_HEAVY': '1'} if heavy is True else {'CRASH_RACE': '1'} if heavy == 'race' else {'CRASH_REOPEN': '1'} if heavy == 'reopen' else None
-        if heavy in ('race', 'reopen'): heavy = False
+        renv = {'CRASH_HEAVY': '1'} if heavy is True else {'CRASH_RACE': '1'} if heavy == 'race' else {'CRASH_REOPEN': '1'} if heavy == 'reopen' else {'CRASH_BIGBATCH': '1'} if heavy == 'bigbatch' else None
+        if heavy in ('race', 'reopen', 'bigbatch'): heavy = False
         plan = Plan(tier, prop)
         if heavy:
             plan.point_every = 12 if tier == 'quick' else 5; plan.only_classes = ['max', 'min']; plan.nested_every = 0; plan.model_images = False
